@@ -626,7 +626,8 @@ class Interp:
                     raise Unsupported("** of symbolic dict in dict display")
             else:
                 kv = self.eval(k)
-                d.set(self, kv, self.eval(v))
+                # a display builds a FRESH dict: storing into it is not a store into state a summarised loop carries
+                d.d[d.key(self, kv)] = self.eval(v)
         return d
 
     def e_JoinedStr(self, n):
